@@ -243,7 +243,8 @@ def case_fn(case):
 # ---------------------------------------------------------------------------------------------
 HIST_ALPHABET = [['T', 700.0], ['T', 1900.0], ['planet_radius', 0.7], ['planet_mass', 2.0], ['H2O', 1e-6],
                  ['H2O', 1e-2], ['CH4', 1e-3], ['He_H2', 0.6], ['atm_max_pressure', 1e5], ['atm_min_pressure', 1e1]]
-HIST_REDUCED = [['T', 700.0], ['T', 1900.0], ['H2O', 1e-2], ['atm_max_pressure', 1e5]]
+# ['H2O', 1.5]: a mixing ratio above one - the model is rejected, and the history goes on from there
+HIST_REDUCED = [['H2O', 1.5], ['T', 700.0], ['T', 1900.0], ['H2O', 1e-2], ['atm_max_pressure', 1e5]]
 
 
 # the installed k-tables are replaced under a live model (another resolution / quadrature of the same line list):
